@@ -327,7 +327,6 @@ def data_routes():
     F("map-var", "xs2|map(attribute=n)|list")
     a(_r("map-each", lambda A: '{%% for v in xs2|map(attribute="%s") %%}%s{%% endfor %%}' % (A, obs("v"))))
     F("sort", 'xs2|sort(attribute="@A")', False)
-    F("sort1", 'xs|sort(attribute="@A")', False)
     F("sort-multi", 'xs2|sort(attribute="tag,@A")', False)
     F("sort-dotted", 'hs2|sort(attribute="x.@A")', False)
     F("sort-ci", 'xs2|sort(attribute="@A", case_sensitive=true, reverse=true)', False)
